@@ -156,6 +156,36 @@ func cliDiffPairs(ds []cliDiff, every int) []cliDiff {
 	return out
 }
 
+// cliDiffListLayouts: every case that reads a list file (*.txt: tips, groups, states) is repeated with the same list in
+// two other layouts of the file - last line not terminated, Windows line ends. The expected output is the same.
+func cliDiffListLayouts(ds []cliDiff) []cliDiff {
+	var out []cliDiff
+	for _, d := range ds {
+		has := false
+		for n, content := range d.files {
+			has = has || (strings.HasSuffix(n, ".txt") && strings.HasSuffix(content, "\n"))
+		}
+		if !has {
+			continue
+		}
+		for v := 0; v < 2; v++ {
+			f2 := map[string]string{}
+			for n, content := range d.files {
+				if strings.HasSuffix(n, ".txt") && strings.HasSuffix(content, "\n") {
+					if v == 0 {
+						content = strings.TrimSuffix(content, "\n")
+					} else {
+						content = strings.ReplaceAll(content, "\n", "\r\n")
+					}
+				}
+				f2[n] = content
+			}
+			out = append(out, cliDiff{d.prop, d.fam + "-list-layout", d.args, f2, d.param + []string{" (last line of the list file not terminated)", " (list file with CR LF line ends)"}[v], d.lib})
+		}
+	}
+	return out
+}
+
 func cliDiffRun(c *Ctx, ds []cliDiff) {
 	for _, d := range ds {
 		if c.TimeUp() {
@@ -774,12 +804,23 @@ func init() {
 		ds := cliDiffC05(c.Quick())
 		cliDiffRun(c, ds)
 		cliDiffRun(c, cliDiffPairs(ds, 3))
+		cliDiffRun(c, cliDiffListLayouts(ds))
 	})
 	addExtra("C09", func(c *Ctx) { defer cliCleanup(); cliDiffRun(c, cliDiffC09(c.Quick())) })
 	addExtra("C10", func(c *Ctx) { defer cliCleanup(); cliDiffRun(c, cliDiffC10(c.Quick())) })
 	addExtra("C08", func(c *Ctx) { defer cliCleanup(); cliDiffRun(c, cliDiffC08(c.Quick())) })
-	addExtra("C12", func(c *Ctx) { defer cliCleanup(); cliDiffRun(c, cliDiffC12(c.Quick())) })
-	addExtra("C15", func(c *Ctx) { defer cliCleanup(); cliDiffRun(c, cliDiffC15(c.Quick())) })
+	addExtra("C12", func(c *Ctx) {
+		defer cliCleanup()
+		ds := cliDiffC12(c.Quick())
+		cliDiffRun(c, ds)
+		cliDiffRun(c, cliDiffListLayouts(ds))
+	})
+	addExtra("C15", func(c *Ctx) {
+		defer cliCleanup()
+		ds := cliDiffC15(c.Quick())
+		cliDiffRun(c, ds)
+		cliDiffRun(c, cliDiffListLayouts(ds))
+	})
 }
 
 // cliDiffReplay re-runs one recorded differential case (found by its args among the cases of its family).
@@ -796,7 +837,7 @@ func cliDiffReplay(c *Ctx, raw json.RawMessage) bool {
 			if len(ds) == 0 || ds[0].prop != cs.Prop {
 				break
 			}
-			for _, d := range append(ds, cliDiffPairs(ds, 3)...) {
+			for _, d := range append(append(ds, cliDiffPairs(ds, 3)...), cliDiffListLayouts(ds)...) {
 				if strings.Join(d.args, " ") == strings.Join(cs.Args, " ") && cliFilesDesc(d.files) == cliFilesDesc(cs.Files) {
 					k, w := d.run()
 					fmt.Println(k, w)
